@@ -409,6 +409,12 @@ def stage_m0(ctx, stats, dis):
         ok = any(m["state"] == p["state"] and m["wrapped"] == w for (c, w), m in zip(cands, mod))
         if not ok: dis.append({"stage": "M0 has_default", "case": "hd", "request": r, "impl": {"state": p["state"], "type": te}, "model": mod})
 
+def _has_integral_float(v):
+    if isinstance(v, float): return v == int(v) if abs(v) < 2**62 else False
+    if isinstance(v, list): return any(_has_integral_float(x) for x in v)
+    if isinstance(v, dict): return any(_has_integral_float(x) for x in v.values())
+    return False
+
 def stage_m3(ctx, stats, dis, fails, driver_ok):
     b = Batch(ctx, assertions=False, ops=("de", "build", "default"), ops_for="all")
     cases = []
@@ -418,6 +424,14 @@ def stage_m3(ctx, stats, dis, fails, driver_ok):
         cases.append(("gen:%d" % k, gen.gen_universe(ctx.rng, 3 + k % 4, gen.FEATURE_SETS["defaults"]), "valid"))
     for k in range(ndocs):
         cases.append(("genbad:%d" % k, gen.gen_universe(ctx.rng, 3 + k % 4, gen.FEATURE_SETS["c06"]), "maybe"))
+    # the valid-default documents again with the integers of their defaults written 3.0: the same JSON numbers (rejected or reproduced)
+    for tag, d, kind in list(cases):
+        if tag.startswith(("gen:", "hand:")) and len([1 for t_, _, _ in cases if t_.startswith("respelled:")]) < (60 if ctx.tier == "thorough" else 8):
+            d2, nresp = gen.respell_integer_defaults(ctx.rng, d)
+            if nresp: cases.append(("respelled:" + tag, d2, "respelled"))      # refusal allowed ("reproduced exactly, or rejected")
+    import corpus
+    for cid, cdoc, _ in corpus.documents():
+        if cid.startswith("file:") and '"default"' in json.dumps(cdoc): cases.append(("corpus:" + cid, cdoc, "maybe"))
     for i, (s, dv) in enumerate(BAD_DEFAULTS):
         body = dict(s, default=dv) if "$ref" not in s else {"allOf": [s], "default": dv}
         cases.append(("bad:%d" % i, {"title": "Root", "type": "object", "properties": {"p": body}, "definitions": BAD_DEFS}, "invalid"))
@@ -452,10 +466,14 @@ def stage_m3(ctx, stats, dis, fails, driver_ok):
                                   "ignored_position": _ignored_position(c.dump, c.doc, ptr)})
         elif c.kind == "invalid":
             dis.append({"stage": "oracle sanity", "case": c.tag, "what": "hand-written bad default judged valid by the oracle", "request": c.request})
-        elif not call.startswith("ok") and c.kind in ("valid", "maybe"):
+        elif not call.startswith("ok") and c.kind == "valid":
+            # (documents of the generator's schemars-shaped fragment only: the property allows a refusal, the supported fragment does not)
             # every default valid, yet the document is refused: only a violation if the refusal is about a default
             msg = (c.messages or [None])[0] or ""
-            if "default" in msg.lower() or "value" in msg.lower():
+            # integers written with a zero fraction (3.0) are the same JSON number but not the same serde_json::Number: typify
+            # (like serde) does not read them as integers; refusing such a default is "rejected when the schema is added"
+            if any(_has_integral_float(dv) for _, _, dv in c.defaults): stats["refused_float_spelled"] = stats.get("refused_float_spelled", 0) + 1
+            elif "default" in msg.lower() or "value" in msg.lower():
                 fails.append({"clause": "valid default rejected", "case": c.tag, "input": c.request, "call": call, "message": msg})
     # ops only on what is needed
     plans = []
@@ -488,6 +506,9 @@ def stage_m3(ctx, stats, dis, fails, driver_ok):
                 # only default-related compile failures are C06's business: those inside `mod defaults` or an `impl Default`
                 code = c.code or ""
                 dl = [e for e in (c.rustc_errors or []) if (e.get("line") and _in_default_code(code, e["line"])) or "default" in (e.get("rendered") or "").lower()]
+                # two default FUNCTIONS of one name (E0428) is a collision of derived names (C01-default-fn-clash, decided by C01/C08),
+                # not an ill-typed or wrong default value
+                if dl and all(str(e.get("code")) == "E0428" for e in dl): stats["compile_name_clash"] = stats.get("compile_name_clash", 0) + 1; dl = []
                 if dl: fails.append({"clause": "default expression does not compile", "case": c.tag, "input": c.request, "errors": [e.get("message") for e in dl][:3],
                                      "dump": c.dump, "site": [(t, d) for _, _, t, d in sites_of(c.dump)]})
                 else: stats["compile_other"] += 1
